@@ -67,11 +67,14 @@ def _dec2x(x, places=None, base=16):
         return x
     y = _xmask[base]
     if -y <= x < y:
-        if x < 0:
+        neg = x < 0
+        if neg:
             x += y << 1
         x = _xfunc[base](int(x))[2:].upper()
         if places is not None:
             places = int(places)
+            if neg and 0 < places <= 10:
+                return x
             if places >= len(x):
                 return x.zfill(int(places))
         else:
